@@ -145,6 +145,12 @@ class Prov:
                 v = self._index_const(e[1])
                 if v is not None:
                     names[i] = "[%d]" % v
+                else:
+                    # an index that is a bare parameter: remembered by position, so that reading this body through a
+                    # call with a constant argument (a local closure `flag(6, 0)`) yields the constant index
+                    it = strip(self.local_tree(e[1], depth + 1))
+                    if it[0] == "path" and it[1][0] == "arg" and not it[2]:
+                        names[i] = "[@arg%d]" % it[1][1]
         base = self.local_tree(l, depth + 1)
         return self._project(base, names)
 
@@ -792,9 +798,25 @@ def _subst_params(t, argmap):
     k = t[0]
     if k == "path":
         r = t[1]
+        proj = t[2]
+        if any(isinstance(n, str) and n.startswith("[@arg") for n in proj):
+            np = []
+            for n in proj:
+                if isinstance(n, str) and n.startswith("[@arg"):
+                    kk = int(n[5:-1])
+                    a = argmap.get(kk)
+                    if a is not None:
+                        a = strip(a[2] if a[0] == "marker" else a)
+                        while a[0] == "cast":
+                            a = strip(a[2])
+                        if a[0] == "const" and isinstance(a[1], int) and not isinstance(a[1], bool):
+                            n = "[%d]" % a[1]
+                np.append(n)
+            proj = tuple(np)
+            t = ("path", r, proj)
         if r[0] == "arg" and r[1] in argmap:
             cur = argmap[r[1]]
-            for n in t[2]:
+            for n in proj:
                 cur = _project(cur, n)
             return cur
         return t
